@@ -280,6 +280,7 @@ def run(ctx, R):
 
     cut_runs_cleaners(F, R)
     cleaner_loops_ignore_outcome(R)
+    cleaner_due_when_choice_point_gone(F, R)
     # ---- error_form builds error(Formal, Context) ---------------------------------------------------------------
     ef = F.find_impl("MachineState", None, "error_form")
     h = F.hir(ef)
@@ -632,3 +633,54 @@ def cleaner_loops_ignore_outcome(R):
              "%s/%d runs the cleanup as %s: when it fails the loop's clause fails and the cleanups still pending are not run now "
              "((scc(true, member(_,[1,2]), write(c1)), scc(true, member(_,[1,2]), (write(c2), fail)), !) runs c1 only much later)"
              % (f[0], f[1], [P.show(g) for g in runs]), "src/lib/iso_ext.pl (line %s)" % line)
+
+
+def cleaner_due_when_choice_point_gone(F, R):
+    """"cleanup runs exactly once when the goal finishes deterministically, fails, raises an exception or is cut" — and not
+    before. Every pending cleanup is recorded with the choice point of its setup_call_cleanup/3 call (b_cutoff). It is due
+    when that choice point is gone: b < b_cutoff, STRICTLY — the choice point of an enclosing call that is still running
+    is exactly at b while a cut inside its goal prunes an inner call. The two places that make the test (run_cleaners,
+    which starts the loop after a cut, and '$get_scc_cleaner', which feeds it) agree on the strict form, and the two
+    clauses of scc_helper/3 that run the call's own cleanup while its choice point still exists (deterministic exit,
+    exception) drop that choice point first."""
+    tests = {}
+    for label, fn in (("run_cleaners", F.find_impl("Machine", None, "run_cleaners")), ("get_scc_cleaner", F.find_impl("Machine", None, "get_scc_cleaner"))):
+        body = F.hir(fn)["body"]
+        ops = []
+        for n in walk(body):
+            if n["k"] == "If" and n["cond"].get("k") == "Binary" and n["cond"]["op"] in ("Lt", "Le", "Gt", "Ge"):
+                names = {res_name(x) for x in walk(n["cond"]) if x["k"] == "Path"} | {x["name"] for x in walk(n["cond"]) if x["k"] == "Field"}
+                if "b_cutoff" in names and "b" in names:
+                    c = n["cond"]
+                    cut_on_right = any(x["k"] == "Path" and res_name(x) == "b_cutoff" for x in walk(c["b"]))
+                    ops.append(c["op"] if cut_on_right else {"Lt": "Gt", "Le": "Ge", "Gt": "Lt", "Ge": "Le"}[c["op"]])
+        if len(ops) != 1:
+            raise AnchorLost("%s: the comparison of b with b_cutoff (%d)" % (label, len(ops)))
+        tests[label] = (ops[0], fn)
+    for label, (op, fn) in sorted(tests.items()):
+        R.ob("C12:cleaner-due:%s:only-when-its-choice-point-is-gone" % label, op == "Lt",
+             "%s takes a cleanup as due when b %s b_cutoff: with equality the cleanup of an ENCLOSING setup_call_cleanup/3 that is still running is run as soon as a cut "
+             "inside its goal prunes an inner one (scc(true, (scc(true, member(X,[1,2]), write(inner)), !, write(after)), write(outer)) prints inner outer after)"
+             % (label, {"Lt": "<", "Le": "<=", "Gt": ">", "Ge": ">="}[op]), F.where(fn))
+    text = open(os.path.join(REPO, "src/lib/iso_ext.pl")).read()
+    cls = [(line, P.head_body(t)) for t, line in P.read_clauses(text) if P.functor(P.head_body(t)[0]) == ("scc_helper", 3)]
+    if len(cls) != 3:
+        raise AnchorLost("iso_ext.pl: scc_helper/3 clauses (%d)" % len(cls))
+
+    def flat(t):
+        out, st = [], [t]
+        while st:
+            g = st.pop()
+            if g[0] == "cmp" and g[1] in (",", ";", "->") and len(g[2]) == 2:
+                st.extend(reversed(g[2]))
+            else:
+                out.append(g)
+        return out
+    for idx, loop in ((0, ("run_cleaners_without_handling", 1)), (1, ("run_cleaners_with_handling", 0))):
+        line, (head, body) = cls[idx]
+        gs = flat(body)
+        li = [i for i, g in enumerate(gs) if P.functor(g) == loop]
+        ci = [i for i, g in enumerate(gs) if P.functor(g) == ("$set_cp_by_default", 1)]
+        R.ob("C12:cleaner-due:scc_helper-clause-%d:own-choice-point-dropped-before-its-cleanup" % (idx + 1), bool(li) and bool(ci) and min(ci) < min(li),
+             "clause %d of scc_helper/3 (line %s) runs %s/%d while the call's own choice point is still on the stack: with the strict test its cleanup is then not due"
+             % (idx + 1, line, loop[0], loop[1]), "src/lib/iso_ext.pl (line %s)" % line)
